@@ -541,6 +541,16 @@ class Index:
                 return l**r
         if isinstance(e, ast.UnaryOp) and isinstance(e.op, ast.USub):
             return -ev(e.operand)
+        if isinstance(e, ast.Subscript) and not isinstance(e.slice, ast.Slice):
+            # indexing a constant table with a constant key: `op_methods[op]`
+            base, key = ev(e.value), ev(e.slice)
+            try:
+                v = base[key]
+            except (KeyError, IndexError, TypeError) as exc:
+                raise AnalysisError(f"constant subscript {ast.unparse(e)[:50]} fails in {m.name}: {exc!r}")
+            if isinstance(v, ast.AST):
+                raise AnalysisError(f"non-constant table entry in {ast.unparse(e)[:50]}")
+            return v
         if isinstance(e, ast.Call):
             fn = e.func
             if isinstance(fn, ast.Name) and fn.id in ("set", "frozenset", "tuple", "list", "sorted", "dict"):
